@@ -17,8 +17,9 @@ Record case := mk_case {
   k_pkts : list (string * N * N);          (* hex IP layer, packet type, size *)
   k_evs : list cev;                        (* packets and (empty) lock windows with their actions *)
   k_v4 : oflows; k_v6 : oflows;            (* flow log after the last event (hook dump) *)
-  k_blocks : list (oflows * oflows)        (* rows read back from the goDB written by the real handler, one
+  k_blocks : list (oflows * oflows);       (* rows read back from the goDB written by the real handler, one
                                               block per write-out, keys sip|dip|dport|proto *)
+  k_stalled : nat                          (* bounded waits of the harness for the capture routine that expired *)
 }.
 
 Definition pkt_at (c : case) (i : nat) : pkt :=
@@ -42,7 +43,7 @@ Definition block_matches (a : agg_out) (o : oflows * oflows) : bool :=
 
 Definition corr (c : case) : bool :=
   let s := crun (mk_cfg 128 1048576%N) (map (ev_of c) (k_evs c)) in
-  negb (cs_crashed s)
+  negb (cs_crashed s) && (k_stalled c =? 0)%nat
   && GoProbe.C21.Corr.fmap_matches (m4 (cs_core s)) (k_v4 c)
   && GoProbe.C21.Corr.fmap_matches (m6 (cs_core s)) (k_v6 c)
   && GoProbe.C21.Corr.all2 block_matches (rev (o_rot (cs_core s))) (k_blocks c).
@@ -115,7 +116,7 @@ Definition ev_pkts (evs : list ev) : list pkt :=
 Definition holds (c : case) : bool :=
   let evs := map (ev_of c) (k_evs c) in
   let '(ivs, last) := intervals evs zero_flow in
-  GoProbe.C21.Corr.all2 block_ok (k_blocks c) ivs
+  (k_stalled c =? 0)%nat && GoProbe.C21.Corr.all2 block_ok (k_blocks c) ivs
   && GoProbe.C21.Corr.all2 (fun o ps => rows_from false (fst o) ps && rows_from true (snd o) ps)
        (k_blocks c) (fst (ivl_pkts evs []))
   && keys_from false (k_v4 c) (ev_pkts evs) && keys_from true (k_v6 c) (ev_pkts evs)
